@@ -97,8 +97,8 @@ def run_sc(net, bus=None, **o):
     return box
 
 
-def exact_zkk(Y, k):
-    """diagonal entry of Y^-1 by exact Gaussian elimination over Q(i) (pairs of Fractions)"""
+def exact_diag(Y):
+    """diagonal of Y^-1 by one exact Gauss-Jordan elimination over Q(i) (pairs of Fractions); None if singular"""
     n = Y.shape[0]
 
     def cmul(a, b):
@@ -111,18 +111,23 @@ def exact_zkk(Y, k):
     def csub(a, b):
         return (a[0] - b[0], a[1] - b[1])
 
-    A = [[(F(float(Y[i, j].real)), F(float(Y[i, j].imag))) for j in range(n)] + [(F(1 if i == k else 0), F(0))] for i in range(n)]
+    Z0 = (F(0), F(0))
+    A = [[(F(float(Y[i, j].real)), F(float(Y[i, j].imag))) for j in range(n)] + [(F(1 if i == j else 0), F(0)) for j in range(n)]
+         for i in range(n)]
     for c in range(n):
         p = max(range(c, n), key=lambda r: abs(float(A[r][c][0])) + abs(float(A[r][c][1])))
-        if A[p][c] == (0, 0):
+        if A[p][c] == Z0:
             return None
         A[c], A[p] = A[p], A[c]
         for r in range(n):
-            if r != c and A[r][c] != (0, 0):
+            if r != c and A[r][c] != Z0:
                 f = cdiv(A[r][c], A[c][c])
-                A[r] = [csub(A[r][j], cmul(f, A[c][j])) for j in range(n + 1)]
-    z = cdiv(A[k][n], A[k][k])
-    return complex(float(z[0]), float(z[1]))
+                A[r] = [csub(A[r][j], cmul(f, A[c][j])) if A[c][j] != Z0 else A[r][j] for j in range(2 * n)]
+    out = []
+    for k in range(n):
+        z = cdiv(A[k][n + k], A[k][k])
+        out.append(complex(float(z[0]), float(z[1])))
+    return out
 
 
 # ------------------------------------------------------------------ independent network of the sc models
@@ -217,6 +222,7 @@ def one_case(ctx, rng, k, terms, pend, fixed=None):
     if thev is not None:
         ctx.count("independent_thevenin_nets")
     Y = box["Y"][0] if len(box["Y"]) == 1 else None
+    zdiag = exact_diag(Y) if (Y is not None and Y.shape[0] <= 9) else None
     for b in net.bus.index:
         row = ppc["bus"][bl[b]]
         vn = float(net.bus.vn_kv.at[b])
@@ -258,9 +264,9 @@ def one_case(ctx, rng, k, terms, pend, fixed=None):
                 terms.append("run_kappa_b %s %s %s" % (cq.q(1.15), cq.q(e), cq.q(vn)))
             pend.append(("kappa", kappa, desc))
         # exact diagonal entry of the inverse of the impl's own Ybus
-        if Y is not None and Y.shape[0] <= 9:
-            zkk = exact_zkk(Y, int(bl[b]))
-            if zkk is not None:
+        if zdiag is not None:
+            zkk = zdiag[int(bl[b])]
+            if True:
                 terms.append("run_rx %s %s %s %s %s %s" % (cq.q(zkk.real), cq.q(zkk.imag), cq.q(rf), cq.q(xf), cq.q(vn), cq.q(sn)))
                 pend.append(("R_EQUIV/X_EQUIV from the exact inverse of the impl's Ybus", [zr, zx], desc))
     # ext_grid shunts (only buses whose GS/BS come from ext_grids alone)
@@ -309,18 +315,6 @@ def one_case(ctx, rng, k, terms, pend, fixed=None):
                 a = a * fac
             if rel(a, bb) > 1e-7 and abs(a - bb) > 1e-10:
                 kind = "spec"
-                if meta == "sn_mva" and col == "ip_ka" and o["kappa_method"] == "B" and o["topology"] == "auto":
-                    # recorded defect: with topology="auto" method B decides the 1.15 correction from path r/x sums that mix
-                    # p.u. branch impedances with 1/(GS + jBS) in 1/MW: the decision flips with sn_mva.  Classified only if
-                    # both runs agree on ikss and the two kappas are exactly the two candidates clip(k0), clip(1.15 k0)
-                    ik1, ik2 = float(res.at[b, "ikss_ka"]), float(r2.at[b, "ikss_ka"])
-                    rk, xk = float(res.at[b, "rk_ohm"]), float(res.at[b, "xk_ohm"])
-                    k0 = 1.02 + 0.98 * math.exp(-3 * rk / xk)
-                    kmax = 1.8 if float(net.bus.vn_kv.at[b]) < 1 else 2.0
-                    cands = sorted([min(max(k0, 1.0), kmax), min(max(1.15 * k0, 1.0), kmax)])
-                    ks = sorted([float(res.at[b, "ip_ka"]) / (s2 * ik1), float(r2.at[b, "ip_ka"]) / (s2 * ik2)])
-                    if rel(ik1, ik2) < 1e-7 and all(rel(x, y) < 1e-7 for x, y in zip(ks, cands)):
-                        kind = "C18-kappa-b-auto-depends-on-sn-mva"
                 ctx.violation(kind, "bus %d: %s changes from %r to %r under %s" % (b, col, a, bb, meta), desc)
                 break
     ctx.case(desc, nontrivial=nontriv, sample={"opts": o, "res_bus_sc": json.loads(res.to_json())} if k < 3 else None)
@@ -335,7 +329,7 @@ def run(ctx):
             if f.endswith(".json"):
                 one_case(ctx, rng, 99, terms, pend, fixed=json.load(open(os.path.join(d, f))))
                 ctx.count("corpus_cases")
-    for k in range(ctx.n(110, 1300)):
+    for k in range(ctx.n(90, 1200)):
         one_case(ctx, rng, k, terms, pend)
     model = ctx.coq_eval("c18", "Base.QN C18.Model", terms, shard=500)
     _compare(ctx, pend, model)
